@@ -220,17 +220,20 @@ PAIRS = [(n, n.replace('SIS', 'SIR', 1)) for n in ac.ENTRIES if n.startswith('SI
          and n.replace('SIS', 'SIR', 1) in ac.ENTRIES]
 
 
+TAU0 = sorted(n for n, e in ac.ENTRIES.items() if not e.discrete and 'pref_mix' not in n and '[' not in n)
+
+
 @st.composite
-def limit_case(draw):
-    which = draw(st.sampled_from(['tau0', 'gamma0']))
+def limit_case(draw, which=None, name=None):
+    which = which or draw(st.sampled_from(['tau0', 'gamma0']))
     if which == 'tau0':
-        name = draw(st.sampled_from(sorted(n for n, e in ac.ENTRIES.items() if not e.discrete and 'pref_mix' not in n and '[' not in n)))
+        name = name or draw(st.sampled_from(TAU0))
         c = draw(ac.analytic_case(names=[name], nmax=9))
         c['tau'] = 0.0
         c['gamma'] = draw(st.sampled_from([0.5, 1.0, 2.0, 0.3]))
         c['tcount'] = 6
     else:
-        a, b = draw(st.sampled_from(sorted(PAIRS)))
+        a, b = name or draw(st.sampled_from(sorted(PAIRS)))
         c = draw(ac.analytic_case(names=[a], nmax=9))
         c['gamma'] = 0.0
         c['tau'] = draw(st.sampled_from([0.3, 0.5, 1.0, 2.0]))
@@ -305,4 +308,7 @@ def run(ctx):
     if not only or 'final-size' in only:
         run_hypothesis(ctx, 'final-size', final_case(), prop_final, 120 if quick else 3000, rounds=6)
     if not only or 'limits' in only:
-        run_hypothesis(ctx, 'limits', limit_case(), prop_limit, 250 if quick else 5000)
+        for nm in TAU0:                      # every model, every model pair: no reliance on how a sampler spreads its draws
+            run_hypothesis(ctx, 'limits', limit_case('tau0', nm), prop_limit, 4 if quick else 100)
+        for pair in sorted(PAIRS):
+            run_hypothesis(ctx, 'limits', limit_case('gamma0', pair), prop_limit, 10 if quick else 200)
